@@ -116,6 +116,27 @@ def gen(tier: str, seed: int) -> list[Case]:
                     reach=REACH,
                 ),
             )
+    # the source directory is no package itself: one regular package next to test / docs packages (siblings, not children)
+    for j, sibs in enumerate([("tests", "docs"), ("test",), ("docs", "tests", "testing")][: 2 if tier == "quick" else 3]):
+        files, gt = {}, []
+
+        def put(dirparts, stem, filtered, k):
+            tok, cls = f"fn_s{j}_{k}_{stem}", f"ClsS{j}x{k}"
+            rel = "/".join(["src", "proj", *dirparts, stem + ".py"])
+            files[rel] = f"def {tok}(a: int = {k}) -> int:\n    return a\n\n\nclass {cls}:\n    x: int = {k}\n\n    def m(self) -> str: ...\n"
+            gt.append({"rel": rel, "module_id": "/".join([*dirparts, stem]), "token": tok, "cls": cls, "filtered": filtered, "proper_package": True})
+
+        files["src/proj/mainpkg/__init__.py"] = ""
+        files["src/proj/mainpkg/inner/__init__.py"] = ""
+        put(["mainpkg"], "core", False, 1)
+        put(["mainpkg", "inner"], "deep", False, 2)
+        for k, sib in enumerate(sibs):
+            files[f"src/proj/{sib}/__init__.py"] = ""
+            put([sib], f"{'test_' if sib != 'docs' else 'conf_'}util{k}", sib in FILTERED, 3 + k)
+        for tr in (False, True):
+            c = Case(cid=f"c15-siblings{j}-{'tr' if tr else 'no'}", files=files, opts=["--docstyle", ["plaintext", "numpydoc", "google"][j]] + (["-tr"] if tr else []), meta={"gt": gt, "pair": f"s{j}", "tr": tr}, reach=REACH)
+            c.src = "src/proj"
+            cases.append(c)
     return cases
 
 
